@@ -705,13 +705,16 @@ void powerpc_emit_ret (OrcCompiler *compiler)
 void
 powerpc_add_fixup (OrcCompiler *compiler, int type, unsigned char *ptr, int label)
 {
+  if (compiler->n_fixups >= ORC_N_FIXUPS) {
+    /* the rules of a long enough program need more branches than the table
+     * holds: a compile error (the program is emulated), not a store past it */
+    orc_compiler_error (compiler, "too many fixups");
+    return;
+  }
   compiler->fixups[compiler->n_fixups].ptr = ptr;
   compiler->fixups[compiler->n_fixups].label = label;
   compiler->fixups[compiler->n_fixups].type = type;
   compiler->n_fixups++;
-  if (compiler->n_fixups >= ORC_N_FIXUPS) {
-    ORC_ERROR("too many fixups");
-  }
 }
 
 void
